@@ -25,13 +25,15 @@ def _split(path, n):
     return out
 
 
-def _generic(ctx, replay, mode, genmod, judgemod, casefile, rule, mutate, variants, assumptions, countidx=0):
+def _generic(ctx, replay, mode, genmod, judgemod, casefile, rule, mutate, variants, assumptions, countidx=0, more=None):
     prop = ctx.prop
     q = ctx.quick()
     binp = ctx.go_build("clirec")
     gen = os.path.dirname(ctx.path("gen", ".x"))
     if replay:
         case = json.load(open(replay))["record"]["case"]
+        if more is not None and case.get("kind") == more.KIND:
+            return more.replay(ctx, replay)
         one = os.path.join(gen, "one.ndjson")
         vlib.write_ndjson(one, [case["case"]])
         of = ctx.path("obs", "replay.ndjson")
@@ -106,6 +108,12 @@ def _generic(ctx, replay, mode, genmod, judgemod, casefile, rule, mutate, varian
                 obs = json.loads(line)
                 case = _case_of(cases_path, obs)
                 g["record"] = {"case": {"case": case, "conc": conc, "seed": ctx.seed}, "observed": obs}
+    if more is not None:
+        msigs, muni, mtotal = more.collect(ctx)
+        for k, v in msigs.items():
+            sigs.setdefault(k, v)
+        universes += muni
+        total += mtotal
     extra = {"evaluations": total, "distinct_nontrivial": total, "universes": universes, "cases": ncases, "exhaustive": True, "rule": rule}
     ctx.assumptions += assumptions
     return ctx.finish(sigs, extra=extra)
